@@ -1,5 +1,5 @@
 """C04 - bin-completion uses the minimum possible number of bins."""
-from .. import core, scope, gen
+from .. import core, scope, gen, models
 from .common import *
 
 WITNESS = [{"vals": [19, 14, 4, 14, 24, 17, 20, 15, 20], "C": 50}, {"vals": [5, 10, 4, 10, 8, 6, 4, 10, 5, 4, 4, 10], "C": 20},
@@ -8,6 +8,10 @@ WITNESS = [{"vals": [19, 14, 4, 14, 24, 17, 20, 15, 20], "C": 50}, {"vals": [5, 
 
 def run(ck):
     q = ck.quick()
+    # L1 (abstract): dominance is safe, the undominated completions lose nothing, the pruned search is safe and optimal (TLC) ...
+    models.bc_mc(ck, 6 if q else 7, 6, (6, 7))
+    # ... and the real helper functions satisfy the assumptions the model was checked under (covering, dominance relation)
+    models.bc_assumptions(ck, q)
     Q = scope.q_scope(ck, 5, 4, [4], minv=1) + scope.q_scope(ck, 5, 6, [6], minv=1) + (scope.q_scope(ck, 6, 5, [5], minv=1) if not q else [])
     ck.exhaustive = True
     groups = []
